@@ -128,12 +128,26 @@ def oracle(ctx: Ctx, res) -> None:
 
 
 def run(ctx: Ctx) -> None:
-    n = 400 if ctx.quick else 5000
-    good = oc.crawl_and_compare(ctx, n, 2 if ctx.quick else 3)
+    total = 400 if ctx.quick else 5000
+    rule_lists = 2 if ctx.quick else 3
+    batch = 350
+    done = 0
+    first = True
+    while done < total:
+        n = min(batch, total - done)
+        extra = oc.real_package_cases(ctx.rng) if first else ()
+        good = oc.crawl_and_compare(ctx, n, rule_lists, extra_cases=extra, scenarios=first)
+        first = False
+        done += n
+        _account(ctx, good)
+        del good
+
+
+def _account(ctx: Ctx, good) -> None:
     for res in good:
         t = res["truth"]
         nt = nontrivial(res)
-        canon = repr((sorted(res["case"]["units"].items()), res["case"]["privacy"], sorted(res["case"]["opts"].items())))
+        canon = repr((sorted(res["case"]["units"].items()), res["case"].get("path"), res["case"]["privacy"], sorted(res["case"]["opts"].items())))
         ctx.case(canon, nt, {"name": res["case"]["name"], "privacy": res["case"]["privacy"], "opts": res["case"]["opts"],
                              "modules": sorted(res["case"]["units"])} if nt else None)
         ctx.count("rules", len(res["case"]["privacy"]))
